@@ -644,7 +644,8 @@ impl<'a, 'b> Syn<'a, 'b> {
                 let name = self.name();
                 let attrs = self.attrs();
                 let func = self.func_body(d, false);
-                let is_const = luau && self.o.consts && self.t.bool(25);
+                // attributes in front of `const function` are not part of the modelled grammar
+                let is_const = luau && self.o.consts && attrs.is_empty() && self.t.bool(25);
                 if is_const {
                     self.stat("const");
                 }
